@@ -242,6 +242,41 @@ def run(res, tier, seed):
                                        'names': c['names'], 'query_py': c['query'], 'frontend': c['frontend'], 'expected': want, 'observed': o,
                                        'case_key': 'C09|bind|%s|%s|%s' % (json.dumps(c['names']), c['query'], c['frontend'])})
     res.count('binding_failures', nbad)
+    # (2a') columns NAMED like members of the record object itself (Python: the RBQLRecord instance; rbql-js: Object.prototype) addressed in the
+    # attribute form TOGETHER with a dictionary variable in one query: the record object must not confuse a column with its own machinery
+    host_names = ['storage', 'keys', 'values', 'items', 'get', 'constructor', 'toString', '__proto__', 'hasOwnProperty', 'valueOf', 'length', 'prototype']
+    hcases = []
+    for nm in host_names:
+        for pos in (0, 2):
+            names2 = ['other col', 'z', 'w']
+            names2.insert(pos, nm)
+            rows2 = [['r%d c%d' % (r, c) for c in range(4)] for r in range(1, 4)]
+            oc = names2.index('other col')
+            for query, cols in (('select a.%s, a["other col"], NR' % nm, [pos, oc]), ('select a["other col"], a.%s, a["%s"], NR' % (nm, nm), [oc, pos, pos]),
+                                ('select a["%s"], a.z, NR' % nm, [pos, names2.index('z')])):
+                hcases.append({'names': names2, 'rows': rows2, 'query': query, 'frontend': 'list', 'normalize': True, 'cols': cols})
+    houts = run_impl(hcases)
+    jhouts = run_impl_js(hcases)
+    res.evaluations += 2 * len(hcases)
+    for impl_name, outs2 in (('py', houts), ('js', jhouts)):
+        for c, o in zip(hcases, outs2):
+            res.nontrivial.add(('host-name', impl_name, c['query']))
+            want = [[r[k] for k in c['cols']] + [i + 1] for i, r in enumerate(c['rows'])]
+            got = o.get('rows')
+            if got is not None:
+                got = [list(r[:-1]) + [int(r[-1])] for r in got]
+            if got != want:
+                res.violations.append({'property': 'C09', 'impl': impl_name, 'why': 'a column named like a member of the record object did not deliver its column (or broke the other variables of the query)',
+                                       'names': c['names'], 'query': c['query'], 'expected': want, 'observed': o, 'case_key': 'C09|host-name|%s|%s' % (impl_name, c['query'])})
+                break
+    res.count('host_object_member_names', len(hcases))
+    # pinned witness of the known finding D26 (see known_findings.json): a column called __class__ addressed as a.__class__
+    d26 = {'names': ['__class__', 'x'], 'rows': [['r1 c0', 'r1 c1'], ['r2 c0', 'r2 c1']], 'query': 'select a.__class__, NR', 'frontend': 'list', 'normalize': True}
+    o = run_impl([d26])[0]
+    res.evaluations += 1
+    if o.get('rows') != [['r1 c0', 1], ['r2 c0', 2]]:
+        res.violations.append({'property': 'C09', 'impl': 'py', 'why': 'a column named __class__ cannot be read through a.__class__', 'names': d26['names'], 'query': d26['query'],
+                               'expected': [['r1 c0', 1], ['r2 c0', 2]], 'observed': o, 'case_key': 'C09|D26|dunder-class-attribute'})
     # (2b) the same binding through the REAL rbql-js engine (its own escaping: js_string_escape_column_name, its own variable parsers);
     # input table AND join table (b["name"]), list front-end, spellings that are valid in both languages
     jcases = [c for c in cases if c['frontend'] == 'list' and c['spell'] in ('dq', 'sq', 'attr')]
